@@ -39,6 +39,5 @@ Proof.
   intros args (d1 & d2 & d3 & ta & tt & c & ct & s & mode & -> & Hc & Hct & Ic & Ict) fuel.
   safe_start k_jitvaluefrom ann_jitvaluefrom.
   vc k_jitvaluefrom ann_jitvaluefrom.
-  all: try solve [arr_arith].
-  Show.
-Admitted.
+  all: arr_arith.
+Qed.
